@@ -377,7 +377,12 @@ def opgrid_programs(rng, ops=None, per_op=6, widths=("u32", "u8")):
             # always keep the pairs where the operand ranges overlap or straddle each other (that is where range rules differ)
             pairs.sort(key=lambda p: 0 if (p[0][0] <= p[1][1] and p[1][0] <= p[0][1] and p[0] != p[1]) else 1)
             # the operators whose range rule has case distinctions on how the operand ranges relate get more pairs
-            pairs = pairs[:(per_op * 2 if op in ("%", "/", ">>", "-", "&", "~sat-") else per_op)]
+            if op in ("%", "/", ">>", "-", "&", "~sat-"):
+                # every pair of DIFFERENT, overlapping ranges (how the operand ranges relate decides the rule's case)
+                nov = sum(1 for p in pairs if (p[0][0] <= p[1][1] and p[1][0] <= p[0][1] and p[0] != p[1]))
+                pairs = pairs[:max(per_op, min(nov, 16))]
+            else:
+                pairs = pairs[:per_op]
             if not pairs:
                 continue
             L = ["// wcore: allargs maxcalls=1", "pub struct foo?(", "\tz : base.u32,", ")", ""]
